@@ -132,8 +132,26 @@ fn cmd_replay(args: &[String]) -> i32 {
     let mut vio_total = 0u64;
     let mut distinct = std::collections::HashSet::new();
     let mut samples = vec![];
+    let mut global: std::collections::HashMap<(u64, u64, u64), (u64, u64)> = std::collections::HashMap::new();
     for h in handles {
         let (c, s) = h.join().expect("worker thread");
+        // C05 across threads: the same configuration and history must have given the same bits everywhere
+        for (k, (oh, line)) in c.global.iter() {
+            match global.get(k) {
+                None => {
+                    global.insert(*k, (*oh, *line));
+                }
+                Some((first, l0)) => {
+                    stats.det_compared += 1;
+                    if first != oh {
+                        vio_total += 1;
+                        violations.push(json!({"property": prop, "clause": "same-history-different-bits-across-threads", "line": line, "step": 0,
+                            "kind": "", "per": [], "mult": 0.0, "t": k.2, "unit": {"a": 1.0, "b": 0.0, "av": 1.0, "big": 1e6},
+                            "detail": {"other_line": l0}}));
+                    }
+                }
+            }
+        }
         let a = &c.stats;
         stats.behaviours += a.behaviours;
         stats.ops += a.ops;
